@@ -1924,7 +1924,9 @@ def replace_pad_by_hw_pad(op: Operation, arch, nng) -> Operation:
         # Adjust the padding attributes of the convolution operator
         op.attrs["padding"] = Padding.EXPLICIT
         op.attrs["explicit_padding"] = (top, left, bottom, right)
-        op.set_ifm_ofm_shapes()
+        # Only the IFM has changed. The operator keeps its own OFM shape, the OFM tensor may carry the shape of a
+        # bypassed reshape
+        op.ifm_shapes[0] = pad_op.ifm_shapes[0]
         DebugDatabase.add_optimised(op, op)
 
     return op
